@@ -12,7 +12,10 @@
  *      encoder states (struct with the buf pointer dropped + live bytes); it never prunes, because the mirror-decoder
  *      oracle depends on the operation history, not only on the encoder state.
  *  e2  deviation-bounded: filler^H (H=48) with <=k positions replaced by any alphabet op, four fillers taken from the
- *      code's hard cases (see FILL[]), verified at full length and right after every deviation.
+ *      code's hard cases (see FILL[]), verified at full length and right after every deviation.  Only the EXPANDED states
+ *      (those at which deviations are still branched from, plus every prefix of the undeviated run) enter the visited
+ *      set; the states along the deterministic filler tail after the last deviation are counted as transitions only
+ *      (there are ~10^9 of them in the thorough tier, all distinct, which no exact set can hold).
  *  e3  ec_tell_frac over every 16-bit normalised range value x every ilog class (x low bits all-0 / all-1 x several
  *      nbits_total) against the RFC 6716 4.1.6.2 text formula (rc_ref.h); thorough: every rng in (2^23,2^31].
  *
@@ -44,6 +47,9 @@
 #include "entenc.h"
 #include "entdec.h"
 #include "mc.h"
+/* the harness' own bookkeeping is not ASan-instrumented (speed); the library under test and every memcpy/memset are */
+#define NOSAN __attribute__((no_sanitize("address")))
+#define RCREF_FN NOSAN
 #include "rc_ref.h"
 
 /* ------------------------------------------------------------------ alphabet */
@@ -64,45 +70,51 @@ static const struct { const opus_uint16 *t; unsigned ftb; int n; } T16[1]={{T16_
 static Op AL[MAXA]; static int NA;
 static void add(int k,uint32_t a,uint32_t b,uint32_t c){ if(NA<MAXA){ AL[NA].k=k;AL[NA].a=a;AL[NA].b=b;AL[NA].c=c;NA++; } }
 
+/* nested alphabets: small (level 0) < mid (<=1) < core (<=2) < wide (<=3) */
+static int ALEVEL;
+#define ADD(lv,k,a,b,c) do{ if((lv)<=ALEVEL) add(k,a,b,c); }while(0)
 static void mk_alphabet(const char *name){
-   int small=!strcmp(name,"small"), wide=!strcmp(name,"wide");
+   ALEVEL = !strcmp(name,"small")?0: !strcmp(name,"mid")?1: !strcmp(name,"wide")?3: 2;
    NA=0;
    /* log-probability bits */
-   add(K_LOGP,0,1,0); add(K_LOGP,1,1,0); add(K_LOGP,0,15,0); add(K_LOGP,1,15,0);
-   if(!small){ add(K_LOGP,0,2,0); add(K_LOGP,1,2,0); }
-   if(wide){ add(K_LOGP,0,8,0); add(K_LOGP,1,8,0); }
+   ADD(0,K_LOGP,0,1,0); ADD(0,K_LOGP,1,1,0); ADD(0,K_LOGP,0,15,0); ADD(0,K_LOGP,1,15,0);
+   ADD(1,K_LOGP,1,2,0); ADD(2,K_LOGP,0,2,0);
+   ADD(3,K_LOGP,0,8,0); ADD(3,K_LOGP,1,8,0);
    /* inverse-CDF symbols */
-   add(K_ICDF,0,0,0); add(K_ICDF,3,0,0); add(K_ICDF,1,2,0);
-   if(!small) add(K_ICDF,1,1,0);
-   if(wide){ add(K_ICDF,2,0,0); add(K_ICDF,0,1,0); add(K_ICDF,3,1,0); add(K_ICDF,0,2,0); add(K_ICDF,2,2,0); }
-   add(K_ICDF16,3,0,0);
-   if(!small) add(K_ICDF16,0,0,0);
-   if(wide) add(K_ICDF16,1,0,0);
+   ADD(0,K_ICDF,0,0,0); ADD(0,K_ICDF,3,0,0); ADD(0,K_ICDF,1,2,0);
+   ADD(1,K_ICDF,1,1,0);
+   ADD(3,K_ICDF,2,0,0); ADD(3,K_ICDF,0,1,0); ADD(3,K_ICDF,3,1,0); ADD(3,K_ICDF,0,2,0); ADD(3,K_ICDF,2,2,0);
+   ADD(0,K_ICDF16,3,0,0);
+   ADD(1,K_ICDF16,0,0,0);
+   ADD(3,K_ICDF16,1,0,0);
    /* frequency-table symbols */
-   add(K_ENC,0,1,3); add(K_ENC,1,2,3); add(K_ENC,2,3,3);
-   add(K_ENC,65534,65535,65535); add(K_ENC,65535,65536,65536);
-   if(!small){ add(K_ENC,254,255,255); add(K_ENC,16383,16384,32768); add(K_ENC,0,1,65535); add(K_ENC,0,1,1); }
-   if(wide){ add(K_ENC,0,1,2); add(K_ENC,1,2,2); add(K_ENC,0,1,255); add(K_ENC,100,101,255); add(K_ENC,0,1,32768); add(K_ENC,32767,32768,32768);
-             add(K_ENC,100,101,65535); add(K_ENC,0,1,65536); add(K_ENC,0,65535,65536); add(K_ENC,1,65535,65536); }
+   ADD(0,K_ENC,0,1,3); ADD(0,K_ENC,1,2,3); ADD(0,K_ENC,2,3,3);
+   ADD(0,K_ENC,65534,65535,65535); ADD(0,K_ENC,65535,65536,65536);
+   ADD(1,K_ENC,254,255,255); ADD(1,K_ENC,0,1,1);
+   ADD(2,K_ENC,16383,16384,32768); ADD(2,K_ENC,0,1,65535);
+   ADD(3,K_ENC,0,1,2); ADD(3,K_ENC,1,2,2); ADD(3,K_ENC,0,1,255); ADD(3,K_ENC,100,101,255); ADD(3,K_ENC,0,1,32768); ADD(3,K_ENC,32767,32768,32768);
+   ADD(3,K_ENC,100,101,65535); ADD(3,K_ENC,0,1,65536); ADD(3,K_ENC,0,65535,65536); ADD(3,K_ENC,1,65535,65536);
    /* power-of-two tables */
-   add(K_BIN,255,256,8); add(K_BIN,1,2,1);
-   if(!small){ add(K_BIN,0,1,8); add(K_BIN,12345,12346,15); }
-   if(wide){ add(K_BIN,0,1,1); add(K_BIN,127,129,8); add(K_BIN,0,1,15); add(K_BIN,32767,32768,15); add(K_BIN,0,255,8); }
+   ADD(0,K_BIN,255,256,8); ADD(0,K_BIN,1,2,1);
+   ADD(1,K_BIN,0,1,8); ADD(1,K_BIN,12345,12346,15);
+   ADD(3,K_BIN,0,1,1); ADD(3,K_BIN,127,129,8); ADD(3,K_BIN,0,1,15); ADD(3,K_BIN,32767,32768,15); ADD(3,K_BIN,0,255,8);
    /* uniform integers */
-   add(K_UINT,1,3,0); add(K_UINT,255,256,0); add(K_UINT,256,257,0); add(K_UINT,65535,65536,0); add(K_UINT,0xFFFFFFFEu,0xFFFFFFFFu,0);
-   if(!small){ add(K_UINT,0,257,0); add(K_UINT,1u<<24,(1u<<24)+1,0); add(K_UINT,0x7FFFFFFFu,0xFFFFFFFFu,0); }
-   if(wide){ add(K_UINT,0,2,0); add(K_UINT,1,2,0); add(K_UINT,0,3,0); add(K_UINT,2,3,0); add(K_UINT,0,255,0); add(K_UINT,254,255,0); add(K_UINT,127,255,0);
-             add(K_UINT,0,256,0); add(K_UINT,128,256,0); add(K_UINT,128,257,0); add(K_UINT,0,65536,0); add(K_UINT,32768,65536,0);
-             add(K_UINT,0,(1u<<24)+1,0); add(K_UINT,1u<<23,(1u<<24)+1,0); add(K_UINT,0,0xFFFFFFFFu,0); }
+   ADD(0,K_UINT,1,3,0); ADD(0,K_UINT,255,256,0); ADD(0,K_UINT,256,257,0); ADD(0,K_UINT,65535,65536,0); ADD(0,K_UINT,0xFFFFFFFEu,0xFFFFFFFFu,0);
+   ADD(1,K_UINT,1u<<24,(1u<<24)+1,0); ADD(1,K_UINT,0x7FFFFFFFu,0xFFFFFFFFu,0);
+   ADD(2,K_UINT,0,257,0);
+   ADD(3,K_UINT,0,2,0); ADD(3,K_UINT,1,2,0); ADD(3,K_UINT,0,3,0); ADD(3,K_UINT,2,3,0); ADD(3,K_UINT,0,255,0); ADD(3,K_UINT,254,255,0); ADD(3,K_UINT,127,255,0);
+   ADD(3,K_UINT,0,256,0); ADD(3,K_UINT,128,256,0); ADD(3,K_UINT,128,257,0); ADD(3,K_UINT,0,65536,0); ADD(3,K_UINT,32768,65536,0);
+   ADD(3,K_UINT,0,(1u<<24)+1,0); ADD(3,K_UINT,1u<<23,(1u<<24)+1,0); ADD(3,K_UINT,0,0xFFFFFFFFu,0);
    /* raw bits */
-   add(K_BITS,1,1,0); add(K_BITS,0xA5,8,0); add(K_BITS,0x1FFFFFF,25,0);
-   if(!small){ add(K_BITS,0xFFFF,16,0); add(K_BITS,0,25,0); }
-   if(wide){ add(K_BITS,0,1,0); add(K_BITS,0,8,0); add(K_BITS,0xFF,8,0); add(K_BITS,0,16,0); }
+   ADD(0,K_BITS,1,1,0); ADD(0,K_BITS,0xA5,8,0); ADD(0,K_BITS,0x1FFFFFF,25,0);
+   ADD(1,K_BITS,0xFFFF,16,0);
+   ADD(2,K_BITS,0,25,0);
+   ADD(3,K_BITS,0,1,0); ADD(3,K_BITS,0,8,0); ADD(3,K_BITS,0xFF,8,0); ADD(3,K_BITS,0,16,0);
    /* once per sequence */
-   add(K_PATCH,0,1,0); add(K_PATCH,1,2,0); add(K_PATCH,0xA5,8,0);
-   if(!small) add(K_PATCH,1,1,0);
-   if(wide){ add(K_PATCH,0,2,0); add(K_PATCH,3,2,0); add(K_PATCH,0,8,0); add(K_PATCH,0xFF,8,0); add(K_PATCH,5,3,0); }
-   add(K_SHRINK,0,0,0); add(K_SHRINK,1,0,0); add(K_SHRINK,2,0,0);
+   ADD(0,K_PATCH,0,1,0); ADD(0,K_PATCH,1,2,0); ADD(0,K_PATCH,0xA5,8,0);
+   ADD(2,K_PATCH,1,1,0);
+   ADD(3,K_PATCH,0,2,0); ADD(3,K_PATCH,3,2,0); ADD(3,K_PATCH,0,8,0); ADD(3,K_PATCH,0xFF,8,0); ADD(3,K_PATCH,5,3,0);
+   ADD(0,K_SHRINK,0,0,0); ADD(0,K_SHRINK,1,0,0); ADD(0,K_SHRINK,2,0,0);
 }
 
 /* fillers for e2 */
@@ -113,12 +125,12 @@ static const struct { Op op; const char *why; } FILL[4]={
    {{K_ICDF,1,2,0},"centre symbol of a symmetric 8-bit table: the interval keeps straddling 0x7F FF FF.. | 0x80 00 00.., ext grows, the deviation decides whether the carry ripples"}};
 
 /* ------------------------------------------------------------------ small helpers */
-static int ilog32(uint32_t v){ int n=0; while(v){ n++; v>>=1; } return n; }
-static int ispow2(uint64_t x){ return x && !(x&(x-1)); }
+NOSAN static int ilog32(uint32_t v){ int n=0; while(v){ n++; v>>=1; } return n; }
+NOSAN static int ispow2(uint64_t x){ return x && !(x&(x-1)); }
 
 /* decomposition of an op into its range-coded three-tuple and its raw-bit part (model side, from the op's definition) */
 typedef struct { int has_r; uint64_t fl,fh,ft; int has_raw; uint32_t rv; int rn; } Dec;
-static void decomp(const Op *o, Dec *d){
+NOSAN static void decomp(const Op *o, Dec *d){
    memset(d,0,sizeof *d);
    switch(o->k){
    case K_LOGP: d->has_r=1; d->ft=(uint64_t)1<<o->b; if(o->a){ d->fl=d->ft-1; d->fh=d->ft; } else { d->fl=0; d->fh=d->ft-1; } break;
@@ -134,7 +146,7 @@ static void decomp(const Op *o, Dec *d){
    }
 }
 /* uniform dyadic: ft=2^k, one count -> k bits, value fl */
-static int dyadic_bits(const Op *o,const Dec *d){
+NOSAN static int dyadic_bits(const Op *o,const Dec *d){
    if(o->k==K_ICDF||o->k==K_ICDF16) return -1;          /* the decoder call carries a non-uniform table */
    if(o->k==K_LOGP&&o->b!=1) return -1;                 /* only logp==1 is a uniform binary context */
    if(!d->has_r||!ispow2(d->ft)||d->fh!=d->fl+1) return -1;
@@ -199,7 +211,7 @@ static const char *seqstr(int n){
 }
 
 /* state hash: struct without the buffer pointer + live bytes */
-static uint64_t state_hash(const ec_enc *e){
+NOSAN static uint64_t state_hash(const ec_enc *e){
    uint32_t w[11]; uint64_t h;
    w[0]=e->storage;w[1]=e->end_offs;w[2]=e->end_window;w[3]=(uint32_t)e->nend_bits;w[4]=(uint32_t)e->nbits_total;w[5]=e->offs;w[6]=e->rng;w[7]=e->val;w[8]=e->ext;w[9]=(uint32_t)e->rem;w[10]=(uint32_t)e->error;
    h=mc_hash(w,sizeof w,0xC08);
@@ -211,14 +223,14 @@ static uint64_t state_hash(const ec_enc *e){
 }
 
 /* ------------------------------------------------------------------ enabling conditions */
-static uint32_t shrink_target(const ec_enc *e,int variant){
+NOSAN static uint32_t shrink_target(const ec_enc *e,int variant){
    uint32_t tight=e->offs+e->end_offs; if(tight<1) tight=1;
    if(variant==0) return tight;
    if(variant==1) return (e->storage>=2&&e->storage-1>tight)? e->storage-1 : 0;
    return e->storage;
 }
 /* builds the op list the decoder is expected to see (patched symbols); returns 0 if the patch is not legal here */
-static int patch_apply_model(const Op *hist,int n,uint32_t v,int nb,Op *eff){
+NOSAN static int patch_apply_model(const Op *hist,int n,uint32_t v,int nb,Op *eff){
    int i,m=0;
    for(i=0;i<n;i++) if(eff) eff[i]=hist[i];
    for(i=0;i<n&&m<nb;i++){
@@ -241,14 +253,14 @@ static int patch_apply_model(const Op *hist,int n,uint32_t v,int nb,Op *eff){
    }
    return m>=nb;
 }
-static int enabled(const Op *o,const ec_enc *e,int n){
+NOSAN static int enabled(const Op *o,const ec_enc *e,int n){
    if(o->k==K_PATCH){ if(n==0||O_patch[n-1]) return 0; return patch_apply_model(H,n,o->a,(int)o->b,NULL); }
    if(o->k==K_SHRINK){ if(n>0&&O_shrink[n-1]) return 0; if(e->offs+e->end_offs>e->storage) return 0; return shrink_target(e,(int)o->a)!=0; }
    return 1;
 }
 
 /* ------------------------------------------------------------------ one encoder step (real library call) + clause M */
-static void enc_call(ec_enc *e,const Op *o){
+NOSAN static void enc_call(ec_enc *e,const Op *o){
    switch(o->k){
    case K_LOGP: ec_enc_bit_logp(e,(int)o->a,o->b); break;
    case K_ICDF: ec_enc_icdf(e,(int)o->a,T8[o->b].t,T8[o->b].ftb); break;
@@ -262,7 +274,7 @@ static void enc_call(ec_enc *e,const Op *o){
    }
 }
 /* applies H[i]=*o to *e (state after i ops); returns 0, or -1 with F_sig set */
-static int step(ec_enc *e,const Op *o,int i){
+NOSAN static int step(ec_enc *e,const Op *o,int i){
    uint32_t frac0 = i? O_frac[i-1] : ec_tell_frac(e);
    int err0=e->error, rem0=e->rem; uint32_t offs0=e->offs, ext0=e->ext, eo0=e->end_offs; unsigned fl = i? O_flags[i-1]:0;
    uint32_t t,f;
@@ -310,10 +322,11 @@ static int step(ec_enc *e,const Op *o,int i){
 
 /* ------------------------------------------------------------------ verification of a complete sequence H[0..n) */
 static Op EFF[MAXD];
+static uint64_t LC1[1<<16], LC2[1<<16];
 /* decode-side failure signature; sequences in which patch_initial_bits ran while the first stream byte (0xFF) was still
    counted in ext (offs==0, rem==-1, ext>0) get one narrowly scoped signature of their own */
 static const char *dsig(char *buf,size_t n,const char *what,int kind,int last){ if(O_flags[last]&EV_PATCH_FF) snprintf(buf,n,"decode_mismatch_after_patch_initial_bits:first_byte_0xff_still_in_ext"); else snprintf(buf,n,"%s:%s",what,KN[kind]); return buf; }
-static int verify(const ec_enc *cur,int n){
+NOSAN static int verify(const ec_enc *cur,int n){
    ec_enc e=*cur; uint32_t S=e.storage; unsigned char *fb; int tell_end,i,used_raw; const Op *eff=H;
    ec_dec d; rcref r;
    if(S<1||S>SMAX||e.offs+e.end_offs>S){ setfail("enc_state_corrupt:verify","storage=%u offs=%u end_offs=%u | %s",S,e.offs,e.end_offs,seqstr(n)); return -1; }
@@ -373,18 +386,21 @@ static int verify(const ec_enc *cur,int n){
       if(d.rng!=O_rng[i]){ dsig(sig,sizeof sig,"rng_differs_enc_dec",o->k,n-1); setfail(sig,"step %d %s: rng enc %u dec %u | %s | stream=%s",i,opstr(o,0),O_rng[i],d.rng,seqstr(n),mc_hex(fb,S<48?S:48)); return -1; }
       if(rbad){ dsig(sig,sizeof sig,"rfc_decoder_value_differs",o->k,n-1); setfail(sig,"step %d %s: RFC-text decoder returned %u, encoded %u | %s | stream=%s",i,opstr(o,0),rgot,exp,seqstr(n),mc_hex(fb,S<48?S:48)); return -1; }
       if(r.broken){ dsig(sig,sizeof sig,"rfc_decoder_invariant",o->k,n-1); setfail(sig,"step %d %s: RFC-text decoder left its 32-bit domain | %s | stream=%s",i,opstr(o,0),seqstr(n),mc_hex(fb,S<48?S:48)); return -1; }
-      if(rcref_tell(&r)!=(int64_t)O_tell[i]||rcref_tell_frac(&r)!=(int64_t)O_frac[i]||r.rng!=O_rng[i]){ dsig(sig,sizeof sig,"rfc_decoder_tell_or_rng_differs",o->k,n-1);
+      if(r.rng!=O_rng[i]||rcref_tell(&r)!=(int64_t)O_tell[i]||rcref_tell_frac(&r)!=(int64_t)O_frac[i]){ dsig(sig,sizeof sig,"rfc_decoder_tell_or_rng_differs",o->k,n-1);
          setfail(sig,"step %d %s: enc tell/frac/rng %u/%u/%u, RFC-text decoder %ld/%ld/%lu | %s | stream=%s",i,opstr(o,0),O_tell[i],O_frac[i],O_rng[i],(long)rcref_tell(&r),(long)rcref_tell_frac(&r),(unsigned long)r.rng,seqstr(n),mc_hex(fb,S<48?S:48)); return -1; }
    }
    if(d.error||r.corrupt){ setfail("decoder_error_flag_on_valid_stream","dec.error=%d rfc.corrupt=%d | %s",d.error,r.corrupt,seqstr(n)); return -1; }
    MC_INC(c_roundtrip);
    {  /* observation class of a verified round trip */
       uint64_t h=mc_mix(S0,S); int cls = tell_end<(int)(8*S)?0: tell_end==(int)(8*S)?1:2;
-      for(i=0;i<n;i++) h=mc_mix(h,(uint64_t)H[i].k*131+ (H[i].k==K_BITS?H[i].b:0));
+      {  /* op-kind sequence with runs collapsed; beyond the first four runs only the set of kinds is kept */
+         uint64_t prev=~(uint64_t)0, mask=0; int runs=0;
+         for(i=0;i<n;i++){ uint64_t t=(uint64_t)H[i].k*131+(H[i].k==K_BITS?H[i].b:0); if(t!=prev){ if(runs<4) h=mc_mix(h,t); else mask|=(uint64_t)1<<H[i].k; runs++; } prev=t; }
+         h=mc_mix(h,mask*16+(runs<15?runs:15)); }
       h=mc_mix(h,O_flags[n-1]); h=mc_mix(h,(uint64_t)cls*4+(used_raw>0&&e.offs+e.end_offs>=S));
-      if(mc_set_add(classes,h)){
+      if(LC2[h&0xFFFF]!=h && (LC2[h&0xFFFF]=h, mc_set_add(classes,h))){
          long c=__atomic_add_fetch(c_dn,1,__ATOMIC_RELAXED);
-         if(c%97==1||O_flags[n-1]&(EV_RIPPLE|EV_SHRINK_MOVED)) mc_sample("%s -> stream %s tell=%d/%u%s%s%s: decoded back exactly by ec_dec and by the RFC-text decoder, tell/tell_frac/rng equal at every step",
+         if(c%20011==1||((O_flags[n-1]&(EV_RIPPLE|EV_SHRINK_MOVED))&&c%211==1)||(cls==1&&c%499==1)) mc_sample("%s -> stream %s tell=%d/%u%s%s%s: decoded back exactly by ec_dec and by the RFC-text decoder, tell/tell_frac/rng equal at every step",
             seqstr(n),mc_hex(fb,S<24?S:24),tell_end,8*S,(O_flags[n-1]&EV_CARRY)?" [carry]":"",(O_flags[n-1]&EV_RIPPLE)?" [carry rippled through ext run]":"",(O_flags[n-1]&EV_SHRINK_MOVED)?" [shrink moved raw bytes]":"");
       }
    }
@@ -414,11 +430,12 @@ static void report_from_dfs(int n){
    F_sig[0]=0;
 }
 
-static void count_state(const ec_enc *e){ if(mc_set_add(visited,state_hash(e))) MC_INC(c_states); }
+/* per-process direct-mapped filters in front of the shared sets (a hit means this process already inserted the hash) */
+NOSAN static void count_state(const ec_enc *e){ uint64_t h=state_hash(e); if(LC1[h&0xFFFF]==h) return; LC1[h&0xFFFF]=h; if(mc_set_add(visited,h)) MC_INC(c_states); }
 
 /* ------------------------------------------------------------------ E1 */
 static int D_MAX;
-static void e1_dfs(ec_enc *e,int depth){
+NOSAN static void e1_dfs(ec_enc *e,int depth){
    int a;
    for(a=0;a<NA;a++){
       ec_enc c; unsigned char b0=0; int saved=0;
@@ -432,7 +449,7 @@ static void e1_dfs(ec_enc *e,int depth){
    }
 }
 static int SZ[16], NSZ;
-static void e1_item(long it,void *ctx){
+NOSAN static void e1_item(long it,void *ctx){
    int a1=(int)(it%NA), a0=(int)((it/NA)%NA), si=(int)(it/NA/NA); ec_enc e,c; (void)ctx;
    S0=(uint32_t)SZ[si]; F_sig[0]=0;
    mc_case("e1","size=%u first ops %s, %s",S0,opstr(&AL[a0],0),opstr(&AL[a1],0));
@@ -457,7 +474,7 @@ static void e1_item(long it,void *ctx){
 
 /* ------------------------------------------------------------------ E2 */
 static int HZ, KDEV;
-static void e2_dfs(ec_enc *e,int pos,int kleft,const Op *fill){
+NOSAN static void e2_dfs(ec_enc *e,int pos,int kleft,const Op *fill){
    ec_enc c; int a;
    if(pos>=HZ) return;
    if(kleft>0){
@@ -468,23 +485,23 @@ static void e2_dfs(ec_enc *e,int pos,int kleft,const Op *fill){
          c=*e; if(AL[a].k==K_PATCH&&c.offs>0){ b0=c.buf[0]; saved=1; }
          if(replay_mode||kleft>1) mc_case("e2","%s + %s",seqstr(pos),opstr(&AL[a],0));
          if(step(&c,&AL[a],pos)||verify(&c,pos+1)) report_from_dfs(pos+1);
-         else { count_state(&c); e2_dfs(&c,pos+1,kleft-1,fill); }
+         else { if(kleft>1) count_state(&c); e2_dfs(&c,pos+1,kleft-1,fill); }
          if(saved) e->buf[0]=b0;
       }
    }
    /* no deviation here */
    c=*e;
    if(step(&c,fill,pos)){ report_from_dfs(pos+1); return; }
-   count_state(&c);
+   if(kleft>0) count_state(&c);
    if(pos+1==HZ){ if(verify(&c,pos+1)) report_from_dfs(pos+1); return; }
    if(kleft>0) e2_dfs(&c,pos+1,kleft,fill);
    else {
       /* deterministic tail of fillers */
-      int p; for(p=pos+1;p<HZ;p++){ if(step(&c,fill,p)){ report_from_dfs(p+1); return; } count_state(&c); }
+      int p; for(p=pos+1;p<HZ;p++){ if(step(&c,fill,p)){ report_from_dfs(p+1); return; } }   /* tail states are not inserted: see e2 note */
       if(verify(&c,HZ)) report_from_dfs(HZ);
    }
 }
-static void e2_item(long it,void *ctx){
+NOSAN static void e2_item(long it,void *ctx){
    int a=(int)(it%NA), p1=(int)((it/NA)%(HZ+1)), si=(int)((it/NA/(HZ+1))%NSZ), fi=(int)(it/NA/(HZ+1)/NSZ), p; ec_enc e,c; const Op *fill=&FILL[fi].op; (void)ctx;
    S0=(uint32_t)SZ[si]; F_sig[0]=0;
    mc_case("e2","filler %s size=%u first deviation at %d: %s",opstr(fill,0),S0,p1,opstr(&AL[a],0));
@@ -503,13 +520,13 @@ static void e2_item(long it,void *ctx){
    if(!enabled(&AL[a],&e,p1)) return;
    c=e;
    if(step(&c,&AL[a],p1)||verify(&c,p1+1)){ report_from_dfs(p1+1); return; }
-   count_state(&c);
+   if(KDEV>1) count_state(&c);
    e2_dfs(&c,p1+1,KDEV-1,fill);
 }
 
 /* ------------------------------------------------------------------ E3 */
 static const int NBT[4]={33,41,1033,32009};   /* nbits_total is 33 + 8*renormalisations + raw bits */
-static void e3_item(long it,void *ctx){
+NOSAN static void e3_item(long it,void *ctx){
    /* it: ilog class 24..32 (x low-bit fill 0/1) for the table part; chunks of 2^20 rng values for the full sweep */
    int full=*(int*)ctx; ec_ctx x; memset(&x,0,sizeof x);
    mc_case("e3","item %ld full=%d",it,full);
@@ -548,13 +565,13 @@ static void e3_item(long it,void *ctx){
 /* ------------------------------------------------------------------ main */
 static void parse_sizes(const char *s){ NSZ=0; while(*s&&NSZ<16){ int v=atoi(s); if(v>=1&&v<=SMAX) SZ[NSZ++]=v; while(*s&&*s!=',') s++; if(*s==',') s++; } }
 
+/* a plan is a list of sub-spaces run one after another in the same process: "alpha:bound:sizes[:horizon];..."
+   (bound = depth for e1, max deviations for e2) */
 int main(int argc,char **argv){
-   const char *mode; long skipped=0;
+   const char *mode,*plan; char pl[512]; char *ent,*save=NULL;
    mc_init(argc,argv,"C08","e1");
-   mode=mc_arg_s("--mode","e1"); MC.part=mode;
+   mode=mc_arg_s("--mode","e1"); MC.part=mc_arg_s("--name",mode);
    replay_mode = MC.only_item>=0;
-   mk_alphabet(mc_arg_s("--alpha","core"));
-   parse_sizes(mc_arg_s("--sizes","1,2,3,4,5,8,32,1275"));
    c_states=mc_counter("states"); c_trans=mc_counter("transitions"); c_eval=mc_counter("evaluations"); c_dn=mc_counter("distinct_nontrivial");
    c_roundtrip=mc_counter("roundtrips_verified"); c_err=mc_counter("sequences_with_enc_error"); c_safety=mc_counter("decoder_safety_runs_on_truncated_streams");
    c_carry=mc_counter("carries"); c_ripple=mc_counter("carries_rippled_through_ext_run"); c_maxext=mc_counter("max_ext_run");
@@ -562,25 +579,35 @@ int main(int argc,char **argv){
    c_merge=mc_counter("raw_bits_merged_into_last_range_byte"); c_frac=mc_counter("tell_frac_evaluations");
    mk_blocks();
    signal(SIGABRT,on_abort);
-   if(!strcmp(mode,"e1")){
-      D_MAX=(int)mc_arg("--depth",MC.tier?6:5); if(D_MAX>MAXD-2) D_MAX=MAXD-2;
-      visited=mc_set_new((int)mc_arg("--setbits",28)); classes=mc_set_new(24);
-      mc_info("e1: alphabet %d ops, depth %d, %d sizes",NA,D_MAX,NSZ);
-      skipped=mc_par((long)NSZ*NA*NA,e1_item,NULL);
-      { int a; char line[2400]; int k=0; for(a=0;a<NA&&k<2200;a++) k+=snprintf(line+k,sizeof line-k,"%s ",opstr(&AL[a],0)); mc_info("alphabet: %s",line); }
-   } else if(!strcmp(mode,"e2")){
-      HZ=(int)mc_arg("--horizon",48); if(HZ>MAXD-2) HZ=MAXD-2; KDEV=(int)mc_arg("--k",2);
-      visited=mc_set_new((int)mc_arg("--setbits",27)); classes=mc_set_new(24);
-      mc_info("e2: alphabet %d ops, horizon %d, <=%d deviations, %d sizes, 4 fillers",NA,HZ,KDEV,NSZ);
-      skipped=mc_par((long)4*NSZ*(HZ+1)*NA,e2_item,NULL);
-      { int f; for(f=0;f<4;f++) mc_info("filler %d: %s — %s",f,opstr(&FILL[f].op,0),FILL[f].why); }
-   } else {
+   if(!strcmp(mode,"e3")){
       int full=(int)mc_arg("--full",0);
       visited=mc_set_new(10); classes=mc_set_new(16);
-      skipped=mc_par(full? 2040 : 18,e3_item,&full);
+      { int zero=0, one=1; mc_par(18,e3_item,&zero); if(full) mc_par(2040,e3_item,&one); }
       *c_eval=*c_frac; *c_trans=*c_frac; *c_states=mc_set_count(classes); *c_dn=mc_set_count(classes);
+      return mc_finish();
    }
-   (void)skipped;
-   if(strcmp(mode,"e3")){ mc_set_count(visited); mc_set_count(classes); }
+   visited=mc_set_new((int)mc_arg("--setbits",27)); classes=mc_set_new(26);
+   plan=mc_arg_s("--plan", !strcmp(mode,"e1") ? "core:4:1,2,3,4,5,8,32,1275" : "small:1:1,2,3,4,5,8,32,1275:48");
+   snprintf(pl,sizeof pl,"%s",plan);
+   for(ent=strtok_r(pl,";",&save); ent; ent=strtok_r(NULL,";",&save)){
+      char al[16]="core", sz[128]="1,2,3,4,5,8,32,1275"; int bound=1, hz=48, a, k=0; char line[2600];
+      if(sscanf(ent,"%15[^:]:%d:%127[^:]:%d",al,&bound,sz,&hz)<3){ fprintf(stderr,"bad plan entry %s\n",ent); return 2; }
+      mk_alphabet(al); parse_sizes(sz);
+      for(a=0;a<NA&&k<2400;a++) k+=snprintf(line+k,sizeof line-k,"%s ",opstr(&AL[a],0));
+      if(!strcmp(mode,"e1")){
+         D_MAX=bound; if(D_MAX>MAXD-2) D_MAX=MAXD-2;
+         mc_info("e1 sub-space: alphabet '%s' (%d ops) depth<=%d sizes %s",al,NA,D_MAX,sz);
+         mc_info("alphabet '%s': %s",al,line);
+         mc_par((long)NSZ*NA*NA,e1_item,NULL);
+      } else {
+         int f;
+         HZ=hz; if(HZ>MAXD-2) HZ=MAXD-2; KDEV=bound;
+         mc_info("e2 sub-space: alphabet '%s' (%d ops) horizon %d, <=%d deviations, sizes %s, 4 fillers",al,NA,HZ,KDEV,sz);
+         mc_info("alphabet '%s': %s",al,line);
+         for(f=0;f<4;f++) mc_info("filler %d: %s — %s",f,opstr(&FILL[f].op,0),FILL[f].why);
+         mc_par((long)4*NSZ*(HZ+1)*NA,e2_item,NULL);
+      }
+   }
+   mc_set_count(visited); mc_set_count(classes);
    return mc_finish();
 }
